@@ -129,7 +129,7 @@ pub enum BlockSpec {
     VecToStreamU8,
     ToTextU8 { n: u8 },
     ToTextF32 { n: u8 },
-    FftStream { size: u8 },
+    FftStream { size: u8, #[serde(default)] threaded: bool },
     // sources and sinks (C09 / C16)
     VectorSourceU8 { len: u32, repeat: u8 },
     ConstantSourceF32 { val: f32 },
@@ -291,7 +291,7 @@ pub fn spec_strategy() -> BoxedStrategy<BlockSpec> {
         Just(VecToStreamU8),
         (1u8..4).prop_map(|n| ToTextU8 { n }),
         (1u8..4).prop_map(|n| ToTextF32 { n }),
-        (0u8..7).prop_map(|size| FftStream { size }),
+        (0u8..7, any::<bool>()).prop_map(|(size, threaded)| FftStream { size, threaded }),
     ]
     .boxed()
 }
@@ -396,7 +396,7 @@ impl BlockSpec {
                 2 * n
             }
             Hilbert { half, .. } => 2 * *half as usize + 1,
-            FftStream { size } => 1 << *size,
+            FftStream { size, .. } => 1 << *size,
             ToTextU8 { .. } | ToTextF32 { .. } => 256,
             VecToStreamU8 => 64,
             AuEncode | AuDecode => 32,
@@ -713,7 +713,13 @@ impl BlockSpec {
                 let (b, o) = ToText::new(rs);
                 Built { scratch: None, sink_probe: None, name: "ToText".into(), block: Box::new(b), ins, outs: vec![Box::new(SOut::new(o))] }
             }
-            FftStream { size } => one!(C32, |r| rustradio::blocks::FftStream::new(r, 1usize << size)),
+            FftStream { size, threaded } => one!(C32, |r| {
+                let (mut b, o) = rustradio::blocks::FftStream::new(r, 1usize << size);
+                if threaded {
+                    b.threaded(true);
+                }
+                (b, o)
+            }),
             VectorSourceU8 { len, repeat } => {
                 sss(out_size);
                 let data = vector_source_data(len);
